@@ -7,6 +7,7 @@ harness/props/c06.py).  Semantics: a coefficient block `p` of degree `d` stands 
 (`sched : List (List Nat)`, thread `t` executes the outer iterations `sched[t]` in that order; valid iff every
 iteration is executed exactly once: `sched.flatten.Perm (List.range n)`). -/
 import HitenModel.Lemmas.C06Poly
+import HitenModel.Lemmas.C06Subst
 import HitenModel.Gen.C06
 
 set_option linter.unusedSectionVars false
@@ -310,5 +311,201 @@ example : polynomialMultiply (K := Int) (mkTables 1) (fun n => [List.range n]) [
 example : polynomialPower (K := Int) (mkTables 2) (fun n => [List.range n])
     [[1], [1, 0, 0, 0, 0, 0], [0, 0, 0, 0, 0, 0, 0, 0, 0, 0, 0, 0, 0, 0, 0, 0, 0, 0, 0, 0, 0]] 3 2
     = [[1], [3, 0, 0, 0, 0, 0], [3, 0, 0, 0, 0, 0, 0, 0, 0, 0, 0, 0, 0, 0, 0, 0, 0, 0, 0, 0, 0]] := by decide +kernel
+
+/-! ## 4. substitution (`_substitute_linear`, `_substitute_affine`)
+
+`substituteWith` (the loop shared by both functions) is `polynomialClean small (substituteCore …)`: the term loop
+`substituteCore` (Lemmas/C06Subst.lean; definitionally the `polyNew` of `substituteWith`) followed by `_polynomial_clean`.
+Graded lists are read as power series in a grading variable `t` (`Ser`, block `r` = coefficient of `t^r`), `tr N` cuts
+after `t^N`.  `PowerSeries (MvPolynomial (Fin 6) K)` is a `K`-algebra (constants `a ↦ PowerSeries.C (MvPolynomial.C a)`),
+so `MvPolynomial.aeval V Q` is "`Q` with every `x_i` replaced by the series `V i`". -/
+
+section substitution
+variable {K : Type} [CommRing K] [DecidableEq K]
+
+/-- the model function is the clean-up applied to the term loop (pure unfolding) -/
+theorem substitute_with_is_clean_of_core (clmo : List (List Nat)) (σ : Nat → List (List Nat)) (small : K → Bool)
+    (V : List (GPoly K)) (P : GPoly K) (N : Nat) :
+    substituteWith clmo σ small V P N = polynomialClean small (substituteCore clmo σ V P N) := rfl
+
+/-- **add_inplace_spec** (`_polynomial_add_inplace(p, q, scale, max_deg)`): on well-formed operands no shape guard fires;
+the result is well-formed and block `d` is `p[d] + scale·q[d]` — through each of the three code paths (`scale = 1`: add,
+`scale = -1`: subtract, otherwise: scale then add) -/
+theorem add_inplace_spec {N : Nat} (T : List (List Nat)) (P Q : GPoly K) (hP : WF P N) (hQ : WF Q N) (s : K) :
+    WF (polynomialAddInplace P Q s N) N ∧
+    (∀ d, d ≤ N → toMv T d ((polynomialAddInplace P Q s N).getD d []) = toMv T d (P.getD d []) + C s * toMv T d (Q.getD d [])) ∧
+    Ser T N (polynomialAddInplace P Q s N) = Ser T N P + PowerSeries.C (C s) * Ser T N Q :=
+  ⟨WF_addInplace P Q hP hQ s, fun d hd => (addInplace_block T P Q hP hQ s d hd).2, Ser_addInplace T P Q hP hQ s⟩
+
+/-- **substitute_core_spec** (the term loop of `_substitute_linear` / `_substitute_affine`, before the final clean): for
+six well-formed variable polynomials `V₀..V₅` the computed `poly_new` is well-formed and, as a series in the grading
+variable, it is the truncation at degree `N` of `P(V₀,…,V₅)`, `P = Σ_{d ≤ N} P[d]` — for every scheduler of the nested
+`_poly_mul` kernels, with the `np.any` block shortcut, the `coeff == 0` skip, the `e == 0` skip, binary powers and the
+truncation after every product.  No shape hypothesis on `P` is needed (slot `pos` of block `deg` is read as the
+monomial `decode pos deg`; blocks above `N` are not read). -/
+theorem substitute_core_spec {D N : Nat} (hD : D ≤ 63) (hN : N ≤ D) (σ : Nat → List (List Nat))
+    (hσ : ∀ n, (σ n).flatten.Perm (List.range n)) (V : List (GPoly K)) (hV : ∀ i, i < 6 → WF (V.getD i []) N)
+    (P : GPoly K) :
+    WF (substituteCore (mkTables D) σ V P N) N ∧
+    Ser (mkTables D) N (substituteCore (mkTables D) σ V P N)
+      = tr N (aeval (fun i : Fin 6 => Ser (mkTables D) N (V.getD i.val []))
+          (∑ d ∈ Finset.range (N + 1), toMv (mkTables D) d (P.getD d []))) :=
+  Ser_substituteCore hD hN σ hσ V hV P
+
+/-- one term of the loop: `coeff · Π_i V_i^{k_i}` (products and powers truncated at `N` at every step, exponent-0
+factors skipped) is the truncated image of the monomial `coeff · x^k` -/
+theorem substitute_term_spec {D N : Nat} (hD : D ≤ 63) (hN : N ≤ D) (σ : Nat → List (List Nat))
+    (hσ : ∀ n, (σ n).flatten.Perm (List.range n)) (V : List (GPoly K)) (hV : ∀ i, i < 6 → WF (V.getD i []) N) (c : K)
+    (k : List Nat) :
+    WF (substTerm (mkTables D) σ V N c k) N ∧
+    Ser (mkTables D) N (substTerm (mkTables D) σ V N c k)
+      = tr N (aeval (fun i : Fin 6 => Ser (mkTables D) N (V.getD i.val [])) (monomial (mono k) c)) :=
+  Ser_substTerm hD hN σ hσ V hV c k
+
+/-- **polynomial_variable_spec** (`_polynomial_variable(j, max_deg)`, `max_deg ≥ 1`): well-formed, block 1 is `x_j`, every
+other block is zero -/
+theorem polynomial_variable_spec {D N : Nat} (hD : D ≤ 63) (hN : N ≤ D) (h1 : 1 ≤ N) (j : Fin 6) :
+    WF (polynomialVariable (mkTables D) j.val N : GPoly K) N ∧ ∀ r, r ≤ N →
+      toMv (mkTables D) r ((polynomialVariable (mkTables D) j.val N : GPoly K).getD r []) = if r = 1 then X j else 0 :=
+  polynomialVariable_spec hD hN h1 j
+
+/-- **linear_variable_polys_spec** (`_linear_variable_polys(C, max_deg)`, `max_deg ≥ 1`): six polynomials; `L[i]` is
+well-formed, its block 1 is the linear form `linForm M i = Σ_j M[i][j]·x_j` (missing table entries count as 0; zero
+entries are skipped by the code) and all other blocks vanish, i.e. `Ser L[i] = (Σ_j M[i][j]·x_j)·t`. -/
+theorem linear_variable_polys_spec {D N : Nat} (hD : D ≤ 63) (hN : N ≤ D) (h1 : 1 ≤ N) (M : List (List K)) :
+    (linearVariablePolys (mkTables D) M N).length = 6 ∧ ∀ i, i < 6 →
+      WF ((linearVariablePolys (mkTables D) M N).getD i []) N ∧
+      (∀ r, r ≤ N → toMv (mkTables D) r (((linearVariablePolys (mkTables D) M N).getD i []).getD r [])
+        = if r = 1 then ∑ j : Fin 6, C ((M.getD i []).getD j.val 0) * X j else 0) ∧
+      Ser (mkTables D) N ((linearVariablePolys (mkTables D) M N).getD i [])
+        = PowerSeries.C (∑ j : Fin 6, C ((M.getD i []).getD j.val 0) * X j) * PowerSeries.X :=
+  ⟨length_linearVariablePolys _ M N, fun i hi => Ser_linearVariablePolys hD hN h1 M i hi⟩
+
+/-- **affine_variable_polys_spec** (`_linear_affine_variable_polys`): `A[i] = shifts[i] + Σ_j M[i][j]·x_j`: block 0 is the
+constant, block 1 the linear form, the rest zero; `Ser A[i] = shifts[i] + (Σ_j M[i][j]·x_j)·t` -/
+theorem affine_variable_polys_spec {D N : Nat} (hD : D ≤ 63) (hN : N ≤ D) (h1 : 1 ≤ N) (M : List (List K)) (sh : List K) :
+    (affineVariablePolys (mkTables D) M sh N).length = 6 ∧ ∀ i, i < 6 →
+      WF ((affineVariablePolys (mkTables D) M sh N).getD i []) N ∧
+      (∀ r, r ≤ N → toMv (mkTables D) r (((affineVariablePolys (mkTables D) M sh N).getD i []).getD r [])
+        = if r = 0 then C (sh.getD i 0) else if r = 1 then linForm M i else 0) ∧
+      Ser (mkTables D) N ((affineVariablePolys (mkTables D) M sh N).getD i [])
+        = PowerSeries.C (C (sh.getD i 0)) + PowerSeries.C (linForm M i) * PowerSeries.X :=
+  ⟨length_affineVariablePolys _ M sh N, fun i hi => Ser_affineVariablePolys hD hN h1 M sh i hi⟩
+
+/-- **clean_spec** (`_polynomial_clean`): shapes are kept; every coefficient is either kept or, when `small` accepts it
+(`|c| ≤ tol`), replaced by 0; with a `small` that accepts nothing the list is unchanged -/
+theorem clean_spec (small : K → Bool) (P : GPoly K) :
+    (polynomialClean small P).length = P.length ∧
+    (∀ d, ((polynomialClean small P).getD d []).length = (P.getD d []).length) ∧
+    (∀ d i, ((polynomialClean small P).getD d []).getD i 0
+      = if small ((P.getD d []).getD i 0) then 0 else (P.getD d []).getD i 0) ∧
+    polynomialClean (fun _ => false) P = P :=
+  ⟨length_clean small P, length_clean_block small P, clean_coeff small P, clean_none P⟩
+
+/-- **substitute_linear_block_spec** (headline, term loop): block `r ≤ N` of the term loop run on the linear variable
+polynomials is block `r` of the input composed with the linear map: `P_r(M·x)`, where `aeval` replaces `x_i` by
+`linForm M i = Σ_j M[i][j]·x_j` — degree by degree, nothing is truncated away; any scheduler. -/
+theorem substitute_linear_block_spec {D N : Nat} (hD : D ≤ 63) (hN : N ≤ D) (h1 : 1 ≤ N) (σ : Nat → List (List Nat))
+    (hσ : ∀ n, (σ n).flatten.Perm (List.range n)) (M : List (List K)) (P : GPoly K) (hP : WF P N) :
+    WF (substituteCore (mkTables D) σ (linearVariablePolys (mkTables D) M N) P N) N ∧ ∀ r, r ≤ N →
+    toMv (mkTables D) r ((substituteCore (mkTables D) σ (linearVariablePolys (mkTables D) M N) P N).getD r [])
+      = aeval (fun i : Fin 6 => linForm M i.val) (toMv (mkTables D) r (P.getD r [])) :=
+  substituteCore_linear_block hD hN h1 σ hσ M P hP
+
+/-- **substitute_linear_spec** (`_substitute_linear`, the whole function): the result is well-formed and slot `i` of block
+`r` holds the coefficient `c` of the monomial `decode i r` in `P_r(M·x)` — or `0` when `small c` (`|c| ≤ tol`); with a
+`small` that accepts nothing the substitution is exact. -/
+theorem substitute_linear_spec {D N : Nat} (hD : D ≤ 63) (hN : N ≤ D) (h1 : 1 ≤ N) (σ : Nat → List (List Nat))
+    (hσ : ∀ n, (σ n).flatten.Perm (List.range n)) (small : K → Bool) (M : List (List K)) (P : GPoly K) (hP : WF P N) :
+    WF (substituteLinear (mkTables D) σ small P M N) N ∧
+    (∀ r, r ≤ N → ∀ i, i < psi 6 r →
+      ((substituteLinear (mkTables D) σ small P M N).getD r []).getD i 0
+        = (let c := coeff (mono (decode (mkTables D) i r))
+              (aeval (fun i : Fin 6 => linForm M i.val) (toMv (mkTables D) r (P.getD r [])))
+           if small c then 0 else c)) ∧
+    (∀ r, r ≤ N → toMv (mkTables D) r ((substituteLinear (mkTables D) σ (fun _ => false) P M N).getD r [])
+      = aeval (fun i : Fin 6 => linForm M i.val) (toMv (mkTables D) r (P.getD r []))) :=
+  ⟨(substituteLinear_coeff hD hN h1 σ hσ small M P hP).1, (substituteLinear_coeff hD hN h1 σ hσ small M P hP).2,
+    fun r hr => substituteLinear_exact hD hN h1 σ hσ M P hP r hr⟩
+
+/-- **substitute_affine_spec** (`_substitute_affine`, term loop): as a series in `t` the result is the truncation at `t^N`
+of `P(δ + t·M·x)`; equivalently block `r ≤ N` is the homogeneous component of degree `r` of `P(M·x + δ)`,
+`P = Σ_{d ≤ N} P[d]`.  Any scheduler, any input list. -/
+theorem substitute_affine_spec {D N : Nat} (hD : D ≤ 63) (hN : N ≤ D) (h1 : 1 ≤ N) (σ : Nat → List (List Nat))
+    (hσ : ∀ n, (σ n).flatten.Perm (List.range n)) (M : List (List K)) (sh : List K) (P : GPoly K) :
+    WF (substituteCore (mkTables D) σ (affineVariablePolys (mkTables D) M sh N) P N) N ∧
+    Ser (mkTables D) N (substituteCore (mkTables D) σ (affineVariablePolys (mkTables D) M sh N) P N)
+      = tr N (aeval (fun i : Fin 6 => PowerSeries.C (C (sh.getD i.val 0)) + PowerSeries.C (linForm M i.val) * PowerSeries.X)
+          (∑ d ∈ Finset.range (N + 1), toMv (mkTables D) d (P.getD d []))) ∧
+    ∀ r, r ≤ N →
+      toMv (mkTables D) r ((substituteCore (mkTables D) σ (affineVariablePolys (mkTables D) M sh N) P N).getD r [])
+        = homogeneousComponent r (aeval (fun i : Fin 6 => C (sh.getD i.val 0) + linForm M i.val)
+            (∑ d ∈ Finset.range (N + 1), toMv (mkTables D) d (P.getD d []))) :=
+  ⟨(Ser_substituteCore_affine hD hN h1 σ hσ M sh P).1, (Ser_substituteCore_affine hD hN h1 σ hσ M sh P).2,
+    fun r hr => substituteCore_affine_block hD hN h1 σ hσ M sh P r hr⟩
+
+/-- **substitute_affine_total_spec**: for a well-formed input the blocks `0..N` computed by the term loop add up to
+`P(M·x + δ)` exactly — the truncation at `max_deg` removes nothing (an affine map does not raise the degree) -/
+theorem substitute_affine_total_spec {D N : Nat} (hD : D ≤ 63) (hN : N ≤ D) (h1 : 1 ≤ N) (σ : Nat → List (List Nat))
+    (hσ : ∀ n, (σ n).flatten.Perm (List.range n)) (M : List (List K)) (sh : List K) (P : GPoly K) (hP : WF P N) :
+    ∑ r ∈ Finset.range (N + 1),
+        toMv (mkTables D) r ((substituteCore (mkTables D) σ (affineVariablePolys (mkTables D) M sh N) P N).getD r [])
+      = aeval (fun i : Fin 6 => C (sh.getD i.val 0) + linForm M i.val)
+          (∑ d ∈ Finset.range (N + 1), toMv (mkTables D) d (P.getD d [])) :=
+  substituteCore_affine_total hD hN h1 σ hσ M sh P hP
+
+/-- **substitute_affine_coeff_spec** (`_substitute_affine`, the whole function): the result is well-formed and slot `i` of
+block `r` holds the coefficient `c` of the monomial `decode i r` in `P(M·x + δ)` — or `0` when `small c` (`|c| ≤ tol`) -/
+theorem substitute_affine_coeff_spec {D N : Nat} (hD : D ≤ 63) (hN : N ≤ D) (h1 : 1 ≤ N) (σ : Nat → List (List Nat))
+    (hσ : ∀ n, (σ n).flatten.Perm (List.range n)) (small : K → Bool) (M : List (List K)) (sh : List K) (P : GPoly K) :
+    WF (substituteAffine (mkTables D) σ small P M sh N) N ∧ ∀ r, r ≤ N → ∀ i, i < psi 6 r →
+      ((substituteAffine (mkTables D) σ small P M sh N).getD r []).getD i 0
+        = (let c := coeff (mono (decode (mkTables D) i r))
+              (aeval (fun i : Fin 6 => C (sh.getD i.val 0) + linForm M i.val)
+                (∑ d ∈ Finset.range (N + 1), toMv (mkTables D) d (P.getD d [])))
+           if small c then 0 else c) :=
+  substituteAffine_coeff hD hN h1 σ hσ small M sh P
+
+end substitution
+
+/-! ### non-vacuity of §4 -/
+
+/-- `x₀ ↦ x₀ + 2x₁` (other variables fixed) in `3x₀²`: `3x₀² + 12x₀x₁ + 12x₁²`, under a reversed single-thread schedule -/
+example : substituteLinear (K := Int) (mkTables 2) (fun n => [(List.range n).reverse]) (fun _ => false)
+    [[0], [0, 0, 0, 0, 0, 0], [3, 0, 0, 0, 0, 0, 0, 0, 0, 0, 0, 0, 0, 0, 0, 0, 0, 0, 0, 0, 0]]
+    [[1, 2, 0, 0, 0, 0], [0, 1, 0, 0, 0, 0], [0, 0, 1, 0, 0, 0], [0, 0, 0, 1, 0, 0], [0, 0, 0, 0, 1, 0], [0, 0, 0, 0, 0, 1]] 2
+    = [[0], [0, 0, 0, 0, 0, 0], [3, 12, 0, 0, 0, 0, 12, 0, 0, 0, 0, 0, 0, 0, 0, 0, 0, 0, 0, 0, 0]] := by decide +kernel
+
+/-- the same with `small c ⇔ |c| ≤ 3`: the coefficient 3 is cleaned away, the 12s stay -/
+example : substituteLinear (K := Int) (mkTables 2) (fun n => [List.range n]) (fun c => decide (c.natAbs ≤ 3))
+    [[0], [0, 0, 0, 0, 0, 0], [3, 0, 0, 0, 0, 0, 0, 0, 0, 0, 0, 0, 0, 0, 0, 0, 0, 0, 0, 0, 0]]
+    [[1, 2, 0, 0, 0, 0], [0, 1, 0, 0, 0, 0], [0, 0, 1, 0, 0, 0], [0, 0, 0, 1, 0, 0], [0, 0, 0, 0, 1, 0], [0, 0, 0, 0, 0, 1]] 2
+    = [[0], [0, 0, 0, 0, 0, 0], [0, 12, 0, 0, 0, 0, 12, 0, 0, 0, 0, 0, 0, 0, 0, 0, 0, 0, 0, 0, 0]] := by decide +kernel
+
+/-- `x₀ ↦ x₀ + 2x₁ + 1` in `3x₀²`: `3 + (6x₀ + 12x₁) + (3x₀² + 12x₀x₁ + 12x₁²)` -/
+example : substituteAffine (K := Int) (mkTables 2) (fun n => [List.range n]) (fun _ => false)
+    [[0], [0, 0, 0, 0, 0, 0], [3, 0, 0, 0, 0, 0, 0, 0, 0, 0, 0, 0, 0, 0, 0, 0, 0, 0, 0, 0, 0]]
+    [[1, 2, 0, 0, 0, 0], [0, 1, 0, 0, 0, 0], [0, 0, 1, 0, 0, 0], [0, 0, 0, 1, 0, 0], [0, 0, 0, 0, 1, 0], [0, 0, 0, 0, 0, 1]]
+    [1, 0, 0, 0, 0, 0] 2
+    = [[3], [6, 12, 0, 0, 0, 0], [3, 12, 0, 0, 0, 0, 12, 0, 0, 0, 0, 0, 0, 0, 0, 0, 0, 0, 0, 0, 0]] := by decide +kernel
+
+/-- the variable polynomials of that example: `L[0] = x₀ + 2x₁`, `A[0] = 5 + x₀ + 2x₁` -/
+example : (linearVariablePolys (K := Int) (mkTables 2)
+      [[1, 2, 0, 0, 0, 0], [0, 1, 0, 0, 0, 0], [0, 0, 1, 0, 0, 0], [0, 0, 0, 1, 0, 0], [0, 0, 0, 0, 1, 0], [0, 0, 0, 0, 0, 1]] 2).getD 0 []
+    = [[0], [1, 2, 0, 0, 0, 0], [0, 0, 0, 0, 0, 0, 0, 0, 0, 0, 0, 0, 0, 0, 0, 0, 0, 0, 0, 0, 0]] ∧
+  (affineVariablePolys (K := Int) (mkTables 2)
+      [[1, 2, 0, 0, 0, 0], [0, 1, 0, 0, 0, 0], [0, 0, 1, 0, 0, 0], [0, 0, 0, 1, 0, 0], [0, 0, 0, 0, 1, 0], [0, 0, 0, 0, 0, 1]]
+      [5, 0, 0, 0, 0, 0] 2).getD 0 []
+    = [[5], [1, 2, 0, 0, 0, 0], [0, 0, 0, 0, 0, 0, 0, 0, 0, 0, 0, 0, 0, 0, 0, 0, 0, 0, 0, 0, 0]] := by decide +kernel
+
+/-- the hypotheses of `substitute_linear_spec` hold for that input: it is well-formed for `N = 2` -/
+example : WF ([[0], [0, 0, 0, 0, 0, 0], [3, 0, 0, 0, 0, 0, 0, 0, 0, 0, 0, 0, 0, 0, 0, 0, 0, 0, 0, 0, 0]] : GPoly Int) 2 := by
+  refine ⟨rfl, fun d hd => ?_⟩
+  have : d = 0 ∨ d = 1 ∨ d = 2 := by omega
+  rcases this with rfl | rfl | rfl <;> decide
+
+/-- `max_deg = 0` (excluded by `1 ≤ N`): `_polynomial_variable` has no block 1 to write to and returns the zero
+polynomial, so every `L[i]` is zero — the hypothesis `1 ≤ N` of the variable-polynomial theorems is necessary -/
+example : polynomialVariable (K := Int) (mkTables 2) 0 0 = [[0]] := by decide +kernel
 
 end HitenModel.C06
